@@ -176,7 +176,7 @@ def _check_script(core, kind, k, tier):
                 for r_ in wit["results"]:
                     ok = z3.is_true(m.eval(r_[1] == 0, model_completion=True)) if r_[0] == "result" else False
                     script.append("ok" if ok else "fail_mid")
-                r["replay"] = {"scenario": "c20_script", "args": {"kind": kind, "script": script}}
+                r["replay"] = {"scenario": "c20_script", "args": {"kind": kind, "script": script, "widen": True}}
                 r["model"] = {"script": script}
             r["key"] = f"mirsym:c20:{kind}:{cls}"
         res.append(r)
@@ -249,7 +249,13 @@ def _whole_value_impls(core):
                 continue
             raws = [e.callee for e in p.events if e.kind == "c20"]
             if not raws:
-                continue        # a tuple impl that inserts its fields one by one: order:tuple-impl decides it
+                if kind == "tuple":
+                    continue        # a tuple impl that inserts its fields one by one: order:tuple-impl decides it
+                # a map / slice / vector / array is one JSON value: it is serialised as such (going through a builder would turn an empty sequence into 'no params')
+                viol.append(p.cond())
+                reach["ok"].append(p.cond())
+                uses_raw = True
+                continue
             uses_raw = True
             d = z3.simplify(ex.discr_of(p.ret))
             good = raws == ["raw=arg1"] and z3.is_bv_value(d)
